@@ -525,7 +525,7 @@ def tok_check(ctx, exe, model):
                           'input': k.decode('utf-8', 'replace'), 'model': [stat, dyn]})
         runs.append((i, len(k), 'whole', k + suffix))
         if cut:
-            cuts = list(range(1, len(k)))
+            cuts = [p for p in range(1, len(k)) if (k[p] & 0xC0) != 0x80]      # never inside a multi-byte character: typed text is valid UTF-8 (the property's quantifier)
             inner = [p for p in cuts if p not in bounds]
             if len(inner) > 24:
                 rng.shuffle(inner)
